@@ -26,6 +26,71 @@ func siblings(root *[]*Dir, p *Dir) *[]*Dir {
 // root file.  The returned tree shares no node with the input; IDs are preserved; INCLUDE nodes get fresh IDs.
 // cuts reports how many INCLUDEs were created and how many of them are not at top level.
 func Split(r Rnd, tree []*Dir, maxCuts, maxDepth int) (out []*Dir, cuts, nested int) {
+	out, cuts, nested, _ = SplitRagged(r, tree, maxCuts, maxDepth, false)
+	return
+}
+
+// openLast makes a run "ragged": its last directive keeps only its first k children (and must then use the implicit
+// context form, an unclosed '(' cannot span files or macro bodies); the other children are returned, the caller puts them
+// after the INCLUDE / PASTE node, where the context left open by the piece adopts them exactly as in the unsplit text.
+func openLast(r Rnd, piece []*Dir) (hoisted []*Dir) {
+	d := piece[len(piece)-1]
+	switch d.Kw {
+	case "Description", "INCLUDE", "PASTE", "MACRO":
+		return nil
+	}
+	if len(d.Children) == 0 {
+		return nil
+	}
+	for _, c := range d.Children {
+		if c.Kw == "INCLUDE" || c.Kw == "PASTE" {
+			return nil
+		}
+	}
+	k := r.Intn(len(d.Children))
+	hoisted = append([]*Dir(nil), d.Children[k:]...)
+	d.Children = append([]*Dir(nil), d.Children[:k]...)
+	d.Explicit = "no"
+	return hoisted
+}
+
+// openLastURL is openLast for macro bodies.  PASTE is opaque while the document is scanned: what follows it must be legal
+// in the context of the PASTE itself, and a macro body cannot end with a directive that still expects its body.  The only
+// shape that is legal by construction is a root-level URL (http) whose trailing methods are written after the PASTE.
+func openLastURL(r Rnd, body []*Dir) (hoisted []*Dir) {
+	d := body[len(body)-1]
+	if d.Kw != "URL" {
+		return nil
+	}
+	first := -1
+	for i, c := range d.Children {
+		switch c.Kw {
+		case "GET", "POST", "PUT", "PATCH", "DELETE":
+			if first < 0 {
+				first = i
+			}
+		default:
+			if first >= 0 {
+				return nil // something that is not a method after the first method
+			}
+			if c.Kw == "Protocol" || c.Kw == "Method" || c.Kw == "PASTE" || c.Kw == "INCLUDE" {
+				return nil
+			}
+		}
+	}
+	if first < 0 {
+		return nil
+	}
+	k := first + r.Intn(len(d.Children)-first)
+	hoisted = append([]*Dir(nil), d.Children[k:]...)
+	d.Children = append([]*Dir(nil), d.Children[:k]...)
+	d.Explicit = "no"
+	return hoisted
+}
+
+// SplitRagged is Split; with ragged set, about a third of the pieces end with a directive whose remaining children stay
+// in the including file (a cut at a directive boundary that is not a sub-tree boundary).
+func SplitRagged(r Rnd, tree []*Dir, maxCuts, maxDepth int, ragged bool) (out []*Dir, cuts, nested, raggedCuts int) {
 	out = CloneTree(tree)
 	nextID := 100000
 	fileNo := 0
@@ -54,8 +119,15 @@ func Split(r Rnd, tree []*Dir, maxCuts, maxDepth int) (out []*Dir, cuts, nested 
 			if !isRoot || depth > 0 {
 				nested++
 			}
+			var hoisted []*Dir
+			if ragged && chance(r, 1, 3) {
+				if hoisted = openLast(r, piece); hoisted != nil {
+					raggedCuts++
+				}
+			}
 			nl := append([]*Dir(nil), (*list)[:from]...)
 			nl = append(nl, inc)
+			nl = append(nl, hoisted...)
 			nl = append(nl, (*list)[to:]...)
 			*list = nl
 		}
@@ -107,6 +179,13 @@ func pasteOK(p *Dir) bool {
 // root positions (before or after their use).  Macro bodies may be macroized again (nesting).
 // It returns the new tree, the number of macros and the maximal nesting depth.
 func Macroize(r Rnd, tree []*Dir, maxMacros int) (out []*Dir, macros, depthMax int) {
+	out, macros, depthMax, _ = MacroizeRagged(r, tree, maxMacros, false)
+	return
+}
+
+// MacroizeRagged is Macroize; with ragged set, about a third of the macro bodies end with a directive whose remaining
+// children are written after the PASTE (PASTE is textual: the context the body leaves open adopts them).
+func MacroizeRagged(r Rnd, tree []*Dir, maxMacros int, ragged bool) (out []*Dir, macros, depthMax, raggedMacros int) {
 	out = CloneTree(tree)
 	nextID := 200000
 	var defs []*Dir
@@ -133,6 +212,22 @@ func Macroize(r Rnd, tree []*Dir, maxMacros int) (out []*Dir, macros, depthMax i
 		for to < len(*list) && inMacroOK((*list)[to]) && (*list)[to].Kw != "PASTE" && (to == from || chance(r, 2, 3)) {
 			to++
 		}
+		if ragged && parent == nil && chance(r, 1, 2) {
+			// prefer a run that ends with an URL group, the shape that can be left open (openLastURL)
+			var cand []int
+			for i := lo; i < len(*list); i++ {
+				if d := (*list)[i]; d.Kw == "URL" && len(d.Children) > 0 {
+					cand = append(cand, i)
+				}
+			}
+			if len(cand) > 0 {
+				i := cand[r.Intn(len(cand))]
+				from, to = i, i+1
+				if i > lo && inMacroOK((*list)[i-1]) && (*list)[i-1].Kw != "PASTE" && chance(r, 1, 3) {
+					from = i - 1
+				}
+			}
+		}
 		if to == from {
 			return
 		}
@@ -150,9 +245,16 @@ func Macroize(r Rnd, tree []*Dir, maxMacros int) (out []*Dir, macros, depthMax i
 		if chance(r, 1, 2) {
 			walk(&def.Children, def, depth+1) // nested macros inside the body
 		}
+		var hoisted []*Dir
+		if ragged && parent == nil && chance(r, 1, 2) {
+			if hoisted = openLastURL(r, def.Children); hoisted != nil {
+				raggedMacros++
+			}
+		}
 		defs = append(defs, def)
 		nl := append([]*Dir(nil), (*list)[:from]...)
 		nl = append(nl, paste)
+		nl = append(nl, hoisted...)
 		nl = append(nl, (*list)[to:]...)
 		*list = nl
 	}
